@@ -1,7 +1,9 @@
 (* Proofs about Model/Retry.v: the run of one request as a function of its outcome
-   stream, and invariants of the poll-granular model of several requests sharing one
-   token bucket. *)
-From TR Require Import Lib.Base Model.Retry.
+   stream ([retry_run]), invariants of the poll-granular step machine of several requests
+   sharing one token bucket ([step], what run_script executes), progress of one poll under
+   the cooperative budget, and the refinement between the two layers: what the step
+   machine does for a request that has returned is exactly a run of [retry_run]. *)
+From TR Require Import Lib.Base Lib.TokioTime Model.Retry.
 
 Lemma app_eq_len {A} (l1 l1' l2 l2' : list A) :
   length l1 = length l1' -> l1 ++ l2 = l1' ++ l2' -> l1 = l1' /\ l2 = l2'.
@@ -116,7 +118,7 @@ Section RetryProofs.
                                      c_end cl = c_start cl + Z.max 0 (fst (inner (c_idx cl)))) /\
       (exists cl rest, calls r = cl :: rest /\ c_start cl = t) /\
       (forall l1 c1 c2 l2, calls r = l1 ++ c1 :: c2 :: l2 ->
-         c_start c2 = c_end c1 + Z.max 0 (backoff c (c_idx c1)) + Z.max 0 (fst (ready (c_idx c2)))) /\
+         c_start c2 = ceil_ms (c_end c1 + Z.max 0 (backoff c (c_idx c1))) + Z.max 0 (fst (ready (c_idx c2)))) /\
       (forall k, (a <= k < a + n - 1)%nat -> stopb k = false) /\
       stopb (a + n - 1)%nat = true /\
       last_spec (a + n - 1)%nat (result r) (reason r) /\
@@ -154,7 +156,7 @@ Section RetryProofs.
                                      c_end cl = c_start cl + Z.max 0 (fst (inner (c_idx cl)))) /\
       (exists cl rest, calls r = cl :: rest /\ c_start cl = t) /\
       (forall l1 c1 c2 l2, calls r = l1 ++ c1 :: c2 :: l2 ->
-         c_start c2 = c_end c1 + Z.max 0 (backoff c (c_idx c1)) + Z.max 0 (fst (ready (c_idx c2)))) /\
+         c_start c2 = ceil_ms (c_end c1 + Z.max 0 (backoff c (c_idx c1))) + Z.max 0 (fst (ready (c_idx c2)))) /\
       (forall k, (a <= k < a + n - 1)%nat -> stopb k = false) /\
       stopb (a + n - 1)%nat = true /\
       last_spec (a + n - 1)%nat (result r) (reason r) /\
@@ -185,7 +187,7 @@ Section RetryProofs.
           -- unfold stop_at. rewrite Ho, Er. apply Bool.orb_true_r.
           -- cbn. exists e, e'. repeat split; assumption.
           -- subst bo. unfold tail_ops. destruct hb; reflexivity.
-        * specialize (IH (S a) (t + Z.max 0 (fst (inner a)) + Z.max 0 d + Z.max 0 (fst (ready (S a))))).
+        * specialize (IH (S a) (ceil_ms (t + Z.max 0 (fst (inner a)) + Z.max 0 d) + Z.max 0 (fst (ready (S a))))).
           assert (Hf' : (f + S a + 1 = Nat.max (S a + 1) max)%nat) by lia.
           specialize (IH Hf'). cbn zeta in IH.
           set (r := go f (S a) _) in *.
@@ -229,7 +231,7 @@ Section RetryProofs.
                                      c_end cl = c_start cl + Z.max 0 (fst (inner (c_idx cl)))) /\
       (exists cl rest, calls r = cl :: rest /\ c_start cl = t0) /\
       (forall l1 c1 c2 l2, calls r = l1 ++ c1 :: c2 :: l2 ->
-         c_start c2 = c_end c1 + Z.max 0 (backoff c (c_idx c1)) + Z.max 0 (fst (ready (c_idx c2)))) /\
+         c_start c2 = ceil_ms (c_end c1 + Z.max 0 (backoff c (c_idx c1))) + Z.max 0 (fst (ready (c_idx c2)))) /\
       (forall k, (k < n - 1)%nat -> stopb k = false) /\
       stopb (n - 1)%nat = true /\
       last_spec (n - 1)%nat (result r) (reason r) /\
@@ -328,11 +330,12 @@ Section RetryProofs.
       (exists cl rest, calls r = cl :: rest /\ c_start cl = t0) /\
       (forall cl, In cl (calls r) -> c_end cl = c_start cl + Z.max 0 (fst (inner (c_idx cl)))) /\
       (forall l1 c1 c2 l2, calls r = l1 ++ c1 :: c2 :: l2 ->
+         let dl := c_end c1 + Z.max 0 (backoff c (c_idx c1)) in
          c_idx c2 = S (c_idx c1) /\
-         c_start c2 = c_end c1 + Z.max 0 (backoff c (c_idx c1)) + Z.max 0 (fst (ready (c_idx c2))) /\
+         c_start c2 = ceil_ms dl + Z.max 0 (fst (ready (c_idx c2))) /\
          c_start c2 >= c_end c1 + backoff c (c_idx c1) /\
-         (fst (ready (c_idx c2)) <= 0 -> 0 <= backoff c (c_idx c1) ->
-          c_start c2 = c_end c1 + backoff c (c_idx c1))).
+         (fst (ready (c_idx c2)) <= 0 -> c_start c2 < dl + MS) /\
+         (fst (ready (c_idx c2)) <= 0 -> (exists k, dl = k * MS) -> c_start c2 = dl)).
     Proof.
       cbn zeta. pose proof (run_spec t0) as H. cbn zeta in H.
       destruct H as [_ [H3 [H4 [H5 [H6 _]]]]].
@@ -345,7 +348,10 @@ Section RetryProofs.
         rewrite seq_app in H3. apply app_eq_len in H3.
         + destruct H3 as [_ H3]. cbn [seq Nat.add] in H3. inversion H3. lia.
         + rewrite map_length, seq_length. reflexivity.
-      - split; [exact Hs|]. split; lia.
+      - split; [exact Hs|].
+        pose proof (ceil_ms_bounds (c_end c1 + Z.max 0 (backoff c (c_idx c1)))) as Hb.
+        split; [lia|]. split; [lia|].
+        intros Hr [k Hk]. rewrite Hs, Hk, ceil_ms_whole. lia.
     Qed.
 
     (* C05_budget *)
@@ -448,10 +454,18 @@ Section RetryProofs.
   Definition retryable (c : cfg) (inp : rin) (cl : call) : Prop :=
     exists e, c_out cl = Fail e /\ should_retry c e = true /\ (S (c_idx cl) < r_max inp)%nat.
 
+  Definition not_rerr (x : rdy Err) : Prop := match x with RErr _ => False | _ => True end.
+
+  (* the instant the backoff sleep after call [prev] is over: the timer rounds up to a
+     whole millisecond *)
+  Definition wake_at (c : cfg) (prev : call) : Z :=
+    ceil_ms (c_end prev + Z.max 0 (backoff c (c_idx prev))).
+
   (* the log of finished inner calls (newest first): attempt numbers are consecutive,
      outcomes are the wrapped service's, every call but the newest failed with a
-     retryable error below max_attempts, and the next call started no earlier than
-     that failure was observed plus the backoff for it *)
+     retryable error below max_attempts, the next call started no earlier than
+     that failure was observed plus the backoff for it, on a service instance whose
+     readiness poll did not fail *)
   Fixpoint wf_log (c : cfg) (inp : rin) (l : list call) : Prop :=
     match l with
     | [] => True
@@ -460,8 +474,8 @@ Section RetryProofs.
       c_start cl <= c_end cl /\
       match rest with
       | [] => True
-      | prev :: _ => retryable c inp prev /\
-                     c_end prev + Z.max 0 (backoff c (c_idx prev)) <= c_start cl
+      | prev :: _ => retryable c inp prev /\ wake_at c prev <= c_start cl /\
+                     not_rerr (r_ready inp (c_idx cl))
       end /\ wf_log c inp rest
     end.
 
@@ -484,29 +498,39 @@ Section RetryProofs.
         end
     end.
 
-  (* invariant of one call future; [g] = withdrawals granted to it so far *)
-  Definition RI (c : cfg) (inp : rin) (hb : bool) (t : Z) (r : rst) (g : nat) : Prop :=
+  (* the budget operations a request has issued when it has been granted k retries *)
+  Definition gr (hb : bool) (k : nat) : list bop := if hb then repeat (BWithdraw true) k else [].
+
+  Lemma gr_S hb k : gr hb k ++ (if hb then [BWithdraw true] else []) = gr hb (S k).
+  Proof.
+    unfold gr. destruct hb; [|reflexivity].
+    cbn [repeat]. rewrite repeat_cons. reflexivity.
+  Qed.
+
+  (* invariant of one call future; [ol] = the budget operations it has issued, oldest first *)
+  Definition RI (c : cfg) (inp : rin) (hb : bool) (t : Z) (r : rst) (ol : list bop) : Prop :=
     wf_log c inp (log r) /\
     match ph r with
-    | PInit => attempt r = 0%nat /\ log r = [] /\ res r = None /\ g = 0%nat
+    | PInit => attempt r = 0%nat /\ log r = [] /\ res r = None /\ ol = []
     | PCalling _ =>
       attempt r = length (log r) /\ res r = None /\ cur_start r <= t /\
-      (hb = true -> g = attempt r) /\
+      ol = gr hb (attempt r) /\
       match log r with
       | [] => True
-      | prev :: _ => retryable c inp prev /\
-                     c_end prev + Z.max 0 (backoff c (c_idx prev)) <= cur_start r
+      | prev :: _ => retryable c inp prev /\ wake_at c prev <= cur_start r /\
+                     not_rerr (r_ready inp (attempt r))
       end
     | PSleeping dl =>
-      res r = None /\ (hb = true -> g = S (attempt r)) /\
+      res r = None /\ ol = gr hb (S (attempt r)) /\
       exists prev rest, log r = prev :: rest /\ c_idx prev = attempt r /\ retryable c inp prev /\
-                        dl = c_end prev + Z.max 0 (backoff c (c_idx prev))
+                        dl = wake_at c prev
     | PReadying _ =>
-      res r = None /\ (hb = true -> g = attempt r) /\
+      res r = None /\ ol = gr hb (attempt r) /\
       exists prev rest, log r = prev :: rest /\ S (c_idx prev) = attempt r /\ retryable c inp prev /\
-                        c_end prev + Z.max 0 (backoff c (c_idx prev)) <= t
+                        wake_at c prev <= t
     | PDone =>
-      (hb = true -> g = attempt r) /\ exists x w, res r = Some (x, w) /\ done_spec c inp hb r x w
+      exists x w, res r = Some (x, w) /\ done_spec c inp hb r x w /\
+                  ol = gr hb (length (log r) - 1) ++ tail_ops hb w
     end.
 
   Definition is_grant (o : bop) : bool := match o with BWithdraw true => true | _ => false end.
@@ -518,6 +542,9 @@ Section RetryProofs.
   Proof. unfold ngr. rewrite filter_app, app_length. reflexivity. Qed.
   Lemma ndep_app l1 l2 : ndep (l1 ++ l2) = (ndep l1 + ndep l2)%nat.
   Proof. unfold ndep. rewrite filter_app, app_length. reflexivity. Qed.
+
+  Lemma ngr_gr k : ngr (gr true k) = k.
+  Proof. unfold ngr, gr. induction k as [|k IH]; cbn [repeat filter is_grant length]; [reflexivity|]. rewrite IH. reflexivity. Qed.
 
   Lemma consistent_app l1 : forall b l2,
     consistent b l1 -> consistent (fold_left apply_op l1 b) l2 -> consistent b (l1 ++ l2).
@@ -535,6 +562,7 @@ Section RetryProofs.
     apply_ops (apply_ops b l1) l2 = apply_ops b (l1 ++ l2).
   Proof. destruct b; cbn; [rewrite fold_left_app|]; reflexivity. Qed.
 
+  (* the recorded answers are the ones the token bucket gives, operation by operation *)
   Definition ops_ok (b : option bucket) (bo : list bop) : Prop :=
     match b with Some bk => consistent bk bo | None => bo = [] end.
 
@@ -545,14 +573,22 @@ Section RetryProofs.
     - intros -> ->. reflexivity.
   Qed.
 
+  Lemma ops_ok_nil b : ops_ok b [].
+  Proof. destruct b; cbn; [exact I|reflexivity]. Qed.
+
+  Lemma apply_ops_nil (b : option bucket) : b = apply_ops b [].
+  Proof. destruct b; reflexivity. Qed.
+
   Lemma wf_log_length c inp cl rest : wf_log c inp (cl :: rest) -> c_idx cl = length rest.
   Proof. intros [H _]. exact H. Qed.
 
-  Definition poll_ok (r r' : rst) (hb : bool) (bo : list bop) (p : pres Res Err) : Prop :=
+  (* what one poll may return *)
+  Definition poll_ok (r r' : rst) (hb : bool) (bo : list bop) (p : pres Res Err) (sw : bool) : Prop :=
     (p = Nothing -> ph r = PDone /\ r' = r) /\
     (forall x, p = Ready x -> ph r <> PDone /\ ph r' = PDone /\ exists w, res r' = Some (x, w)) /\
     (In BDeposit bo <-> hb = true /\ exists v, p = Ready (inl v)) /\
-    (In (BWithdraw false) bo -> exists e, p = Ready (inr e)).
+    (In (BWithdraw false) bo -> exists e, p = Ready (inr e)) /\
+    (sw = true -> p = Pending).
 
   Lemma tail_ops_dep hb w : In BDeposit (tail_ops hb w) <-> hb = true /\ w = WOk.
   Proof.
@@ -567,56 +603,62 @@ Section RetryProofs.
     destruct w; cbn; try tauto; try (intros [H|[]]; discriminate).
   Qed.
 
-  Lemma poll_ok_pre (r r1 r' : rst) hb pre bo p :
+  Lemma poll_ok_pre (r r1 r' : rst) hb pre bo p sw :
     ph r1 <> PDone -> ph r <> PDone -> ~ In BDeposit pre -> ~ In (BWithdraw false) pre ->
-    poll_ok r1 r' hb bo p -> poll_ok r r' hb (pre ++ bo) p.
+    poll_ok r1 r' hb bo p sw -> poll_ok r r' hb (pre ++ bo) p sw.
   Proof.
-    intros H1 H0 Hp1 Hp2 [Ha [Hb [Hc Hd]]]. unfold poll_ok.
+    intros H1 H0 Hp1 Hp2 [Ha [Hb [Hc [Hd He]]]]. unfold poll_ok.
     split; [intros Hn; destruct (Ha Hn) as [Hx _]; contradiction|].
     split; [intros x Hx; destruct (Hb x Hx) as [_ Hy]; split; [exact H0|exact Hy]|].
-    split.
+    split; [|split; [|exact He]].
     - rewrite <- Hc. rewrite in_app_iff. tauto.
     - intros Hin. apply Hd. apply in_app_or in Hin. tauto.
   Qed.
 
-  Lemma poll_ok_pre0 (r r1 r' : rst) hb bo p :
-    ph r1 <> PDone -> ph r <> PDone -> poll_ok r1 r' hb bo p -> poll_ok r r' hb bo p.
+  Lemma poll_ok_pre0 (r r1 r' : rst) hb bo p sw :
+    ph r1 <> PDone -> ph r <> PDone -> poll_ok r1 r' hb bo p sw -> poll_ok r r' hb bo p sw.
   Proof.
-    intros H1 H0 H. apply (poll_ok_pre r r1 r' hb [] bo p H1 H0); [intros []|intros []|exact H].
+    intros H1 H0 H. apply (poll_ok_pre r r1 r' hb [] bo p sw H1 H0); [intros []|intros []|exact H].
   Qed.
 
-  Lemma drive_RI (c : cfg) (inp : rin) fuel : forall t r b g r' b' bo p,
-    RI c inp (is_some b) t r g ->
-    drive c inp fuel t r b = (r', b', bo, p) ->
-    RI c inp (is_some b) t r' (g + ngr bo) /\ b' = apply_ops b bo /\ ops_ok b bo /\
-    poll_ok r r' (is_some b) bo p.
+  Lemma poll_ok_pending (r : rst) hb sw : poll_ok r r hb [] Pending sw.
   Proof.
-    induction fuel as [|f IH]; intros t r b g r' b' bo p HI Hd.
-    - cbn in Hd. injection Hd as <- <- <- <-. rewrite Nat.add_0_r.
-      split; [exact HI|]. split; [destruct b; reflexivity|].
-      split; [destruct b; cbn; [exact I|reflexivity]|].
-      unfold poll_ok. split; [discriminate|]. split; [discriminate|].
-      split; [split; [intros []|intros [_ [v Hv]]; discriminate]|intros []].
-    - cbn [drive] in Hd. destruct HI as [Hwf Hph].
+    unfold poll_ok. split; [discriminate|]. split; [discriminate|].
+    split; [split; [intros []|intros [_ [v Hv]]; discriminate]|].
+    split; [intros []|reflexivity].
+  Qed.
+
+  (* a poll that has nothing to do *)
+  Ltac stay HI :=
+    rewrite app_nil_r; split; [exact HI|]; split; [apply apply_ops_nil|];
+    split; [apply ops_ok_nil|apply poll_ok_pending].
+
+  Lemma drive_RI (c : cfg) (inp : rin) fuel : forall coop t r b ol r' b' bo p sw,
+    RI c inp (is_some b) t r ol ->
+    drive c inp fuel coop t r b = (r', b', bo, p, sw) ->
+    RI c inp (is_some b) t r' (ol ++ bo) /\ b' = apply_ops b bo /\ ops_ok b bo /\
+    poll_ok r r' (is_some b) bo p sw.
+  Proof.
+    induction fuel as [|f IH]; intros coop t r b ol r' b' bo p sw HI Hd.
+    - cbn in Hd. injection Hd as <- <- <- <- <-. stay HI.
+    - cbn [drive] in Hd. pose proof HI as HI0. destruct HI as [Hwf Hph].
       destruct (ph r) as [|av|dl|rel|] eqn:Eph.
       + (* PInit: first poll, service.call(req) *)
-        destruct Hph as [Ha [Hl [Hr Hg]]].
+        destruct Hph as [Ha [Hl [Hr Hol]]].
         eapply IH in Hd.
         * destruct Hd as [H1 [H2 [H3 H4]]]. split; [exact H1|]. split; [exact H2|].
           split; [exact H3|]. eapply poll_ok_pre0; [| |exact H4]; [cbn [ph start_call]; discriminate|rewrite Eph; discriminate].
         * unfold RI, start_call. cbn [log ph attempt res cur_start].
           split; [exact Hwf|]. rewrite Hl. cbn [length].
           split; [exact Ha|]. split; [exact Hr|]. split; [lia|].
-          split; [intros _; lia|exact I].
+          split; [rewrite Hol, Ha; unfold gr; destruct (is_some b); reflexivity|exact I].
       + (* PCalling *)
-        destruct Hph as [Ha [Hr [Hcs [Hg Hprev]]]].
-        destruct av.
-        2:{ injection Hd as <- <- <- <-. rewrite Nat.add_0_r.
-            split; [split; [exact Hwf|rewrite Eph; repeat split; assumption]|].
-            split; [destruct b; reflexivity|].
-            split; [destruct b; cbn; [exact I|reflexivity]|].
-            unfold poll_ok. split; [discriminate|]. split; [discriminate|].
-            split; [split; [intros []|intros [_ [v Hv]]; discriminate]|intros []]. }
+        destruct Hph as [Ha [Hr [Hcs [Hol Hprev]]]].
+        destruct (fst (r_inner inp (attempt r)) && (coop =? 0)%nat) eqn:Eg.
+        { injection Hd as <- <- <- <- <-. stay HI0. }
+        destruct av; cbn [negb] in Hd.
+        2:{ injection Hd as <- <- <- <- <-. stay HI0. }
+        set (coop1 := if fst (r_inner inp (attempt r)) then Nat.pred coop else coop) in *.
         set (o := snd (r_inner inp (attempt r))) in *.
         set (cl := mkCall (attempt r) (cur_start r) t o) in *.
         set (g0 := match b with Some bk => fst (tb_try_withdraw bk) | None => true end) in *.
@@ -627,23 +669,22 @@ Section RetryProofs.
         destruct (after_outcome c (is_some b) (r_max inp) (attempt r) o g0) as [bo0 act] eqn:Ea.
         destruct act as [x w|d].
         * (* the future returns *)
-          injection Hd as <- <- <- <-.
+          injection Hd as <- <- <- <- <-.
           apply after_return in Ea. destruct Ea as [Hbo Hw].
-          assert (Hng : ngr bo0 = 0%nat).
-          { rewrite Hbo. unfold tail_ops. destruct (is_some b); [|reflexivity].
-            destruct w; try reflexivity; contradiction. }
           split.
           { unfold RI. cbn [log ph attempt res cur_start]. split; [exact Hwf'|].
-            split; [intros Hb; rewrite Hng; specialize (Hg Hb); lia|].
             exists x, w. split; [reflexivity|].
-            unfold done_spec. cbn [log attempt].
-            destruct w; try contradiction; exists cl, (log r);
-              (split; [reflexivity|]); (split; [reflexivity|]); subst cl; cbn [c_out].
-            - destruct Hw as [v [Ho ->]]. split; [rewrite Ho; reflexivity|]. exists v. exact Ho.
-            - destruct Hw as [e [Ho [Hs ->]]]. split; [rewrite Ho; reflexivity|]. exists e. tauto.
-            - destruct Hw as [e [Ho [Hs [Hm ->]]]]. split; [rewrite Ho; reflexivity|]. exists e. tauto.
-            - destruct Hw as [e [Ho [Hs [Hm [Hb [_ ->]]]]]]. split; [rewrite Ho; reflexivity|].
-              exists e. tauto. }
+            split.
+            - unfold done_spec. cbn [log attempt].
+              destruct w; try contradiction; exists cl, (log r);
+                (split; [reflexivity|]); (split; [reflexivity|]); subst cl; cbn [c_out].
+              + destruct Hw as [v [Ho ->]]. split; [rewrite Ho; reflexivity|]. exists v. exact Ho.
+              + destruct Hw as [e [Ho [Hs ->]]]. split; [rewrite Ho; reflexivity|]. exists e. tauto.
+              + destruct Hw as [e [Ho [Hs [Hm ->]]]]. split; [rewrite Ho; reflexivity|]. exists e. tauto.
+              + destruct Hw as [e [Ho [Hs [Hm [Hb [_ ->]]]]]]. split; [rewrite Ho; reflexivity|].
+                exists e. tauto.
+            - cbn [length]. replace (S (length (log r)) - 1)%nat with (attempt r) by lia.
+              rewrite Hol, Hbo. reflexivity. }
           split; [reflexivity|].
           split.
           { unfold ops_ok. destruct b as [bk|]; cbn [is_some] in *.
@@ -653,7 +694,7 @@ Section RetryProofs.
           unfold poll_ok. split; [discriminate|].
           split; [intros x0 Hx; injection Hx as <-; split; [rewrite Eph; discriminate|];
                   split; [reflexivity|exists w; reflexivity]|].
-          rewrite Hbo. split.
+          rewrite Hbo. split; [|split; [|discriminate]].
           { rewrite tail_ops_dep. split.
             - intros [Hb ->]. split; [exact Hb|]. destruct Hw as [v [_ ->]]. exists v; reflexivity.
             - intros [Hb [v Hv]]. split; [exact Hb|]. injection Hv as ->.
@@ -664,17 +705,18 @@ Section RetryProofs.
         * (* retry: sleep, then readiness, then the next call *)
           apply after_retry in Ea.
           destruct Ea as [e [Ho [Hs [Hlt [Hdl [Hbo Hg0]]]]]].
-          destruct (drive c inp f t _ (apply_ops b bo0)) as [[[r1 b1] bo1] p1] eqn:Ed.
-          injection Hd as <- <- <- <-.
-          eapply (IH _ _ _ (g + ngr bo0)%nat) in Ed.
+          destruct (drive c inp f coop1 t _ (apply_ops b bo0)) as [[[[r1 b1] bo1] p1] sw1] eqn:Ed.
+          injection Hd as <- <- <- <- <-.
+          eapply (IH _ _ _ _ (ol ++ bo0)) in Ed.
           2:{ rewrite is_some_apply_ops. unfold RI. cbn [log ph attempt res cur_start].
               split; [exact Hwf'|]. split; [exact Hr|].
-              split; [intros Hb; specialize (Hg Hb); rewrite Hbo, Hb; cbn; lia|].
+              split; [rewrite Hol, Hbo; apply gr_S|].
               exists cl, (log r). subst cl. cbn [c_idx c_end c_out].
               split; [reflexivity|]. split; [reflexivity|].
-              split; [exists e; repeat split; assumption|]. rewrite Hdl. reflexivity. }
+              split; [exists e; repeat split; assumption|]. unfold wake_at. cbn [c_end c_idx].
+              rewrite Hdl. reflexivity. }
           rewrite is_some_apply_ops in Ed. destruct Ed as [H1 [H2 [H3 H4]]].
-          split; [rewrite ngr_app, Nat.add_assoc; exact H1|].
+          split; [rewrite app_assoc; exact H1|].
           split; [rewrite H2; apply apply_ops_app|].
           split.
           { apply ops_ok_app; [|exact H3]. unfold ops_ok. destruct b as [bk|]; cbn [is_some] in *.
@@ -686,63 +728,57 @@ Section RetryProofs.
           -- rewrite Hbo. destruct (is_some b); [intros [H|[]]; discriminate|intros []].
           -- rewrite Hbo. destruct (is_some b); [intros [H|[]]; discriminate|intros []].
       + (* PSleeping *)
-        destruct Hph as [Hr [Hg [prev [rest [Hl [Hi [Hre Hdl]]]]]]].
+        destruct Hph as [Hr [Hol [prev [rest [Hl [Hi [Hre Hdl]]]]]]].
+        destruct coop as [|k].
+        { injection Hd as <- <- <- <- <-. stay HI0. }
         destruct (dl <=? t) eqn:Et.
         * apply Z.leb_le in Et. eapply IH in Hd.
           -- destruct Hd as [H1 [H2 [H3 H4]]]. split; [exact H1|]. split; [exact H2|].
              split; [exact H3|]. eapply poll_ok_pre0; [| |exact H4]; [cbn [ph start_call]; discriminate|rewrite Eph; discriminate].
           -- unfold RI. cbn [log ph attempt res cur_start]. split; [exact Hwf|].
-             split; [exact Hr|]. split; [exact Hg|]. exists prev, rest.
+             split; [exact Hr|]. split; [exact Hol|]. exists prev, rest.
              split; [exact Hl|]. split; [rewrite Hi; reflexivity|]. split; [exact Hre|]. lia.
-        * injection Hd as <- <- <- <-. rewrite Nat.add_0_r.
-          split; [split; [exact Hwf|rewrite Eph; split; [exact Hr|]; split; [exact Hg|];
-                          exists prev, rest; repeat split; assumption]|].
-          split; [destruct b; reflexivity|].
-          split; [destruct b; cbn; [exact I|reflexivity]|].
-          unfold poll_ok. split; [discriminate|]. split; [discriminate|].
-          split; [split; [intros []|intros [_ [v Hv]]; discriminate]|intros []].
+        * injection Hd as <- <- <- <- <-. stay HI0.
       + (* PReadying *)
-        destruct Hph as [Hr [Hg [prev [rest [Hl [Hi [Hre Hsp]]]]]]].
-        assert (Hstart : RI c inp (is_some b) t (start_call inp t r) g).
-        { unfold RI, start_call. cbn [log ph attempt res cur_start]. split; [exact Hwf|].
+        destruct Hph as [Hr [Hol [prev [rest [Hl [Hi [Hre Hsp]]]]]]].
+        assert (Hstart : not_rerr (r_ready inp (attempt r)) ->
+                         RI c inp (is_some b) t (start_call inp t r) ol).
+        { intros Hnr. unfold RI, start_call. cbn [log ph attempt res cur_start]. split; [exact Hwf|].
           rewrite Hl in *. apply wf_log_length in Hwf. cbn [length].
-          split; [lia|]. split; [exact Hr|]. split; [lia|]. split; [exact Hg|].
-          split; [exact Hre|exact Hsp]. }
+          split; [lia|]. split; [exact Hr|]. split; [lia|]. split; [exact Hol|].
+          split; [exact Hre|]. split; [exact Hsp|exact Hnr]. }
         destruct (r_ready inp (attempt r)) as [|e|] eqn:Erd.
-        * eapply IH in Hd; [|exact Hstart].
+        * eapply IH in Hd; [|apply Hstart; exact I].
           destruct Hd as [H1 [H2 [H3 H4]]]. split; [exact H1|]. split; [exact H2|].
           split; [exact H3|]. eapply poll_ok_pre0; [| |exact H4]; [cbn [ph start_call]; discriminate|rewrite Eph; discriminate].
-        * injection Hd as <- <- <- <-. rewrite Nat.add_0_r.
+        * injection Hd as <- <- <- <- <-. rewrite app_nil_r.
           split.
           { unfold RI. cbn [log ph attempt res cur_start]. split; [exact Hwf|].
-            split; [exact Hg|]. exists (inr e), WNotReady. split; [reflexivity|].
-            unfold done_spec. cbn [log attempt]. exists prev, rest, e. repeat split; assumption. }
-          split; [destruct b; reflexivity|].
-          split; [destruct b; cbn; [exact I|reflexivity]|].
+            exists (inr e), WNotReady. split; [reflexivity|]. split.
+            - unfold done_spec. cbn [log attempt]. exists prev, rest, e. repeat split; assumption.
+            - rewrite Hl in *. apply wf_log_length in Hwf. cbn [length].
+              replace (S (length rest) - 1)%nat with (length rest) by lia.
+              unfold tail_ops. rewrite Hol. replace (attempt r) with (S (length rest)) by lia.
+              rewrite <- gr_S. destruct (is_some b); reflexivity. }
+          split; [apply apply_ops_nil|].
+          split; [apply ops_ok_nil|].
           unfold poll_ok. split; [discriminate|].
           split; [intros x Hx; injection Hx as <-; split; [rewrite Eph; discriminate|];
                   split; [reflexivity|exists WNotReady; reflexivity]|].
-          split; [split; [intros []|intros [_ [v Hv]]; discriminate]|intros []].
+          split; [split; [intros []|intros [_ [v Hv]]; discriminate]|].
+          split; [intros []|discriminate].
         * destruct rel.
-          -- eapply IH in Hd; [|exact Hstart].
+          -- eapply IH in Hd; [|apply Hstart; exact I].
              destruct Hd as [H1 [H2 [H3 H4]]]. split; [exact H1|]. split; [exact H2|].
              split; [exact H3|]. eapply poll_ok_pre0; [| |exact H4]; [cbn [ph start_call]; discriminate|rewrite Eph; discriminate].
-          -- injection Hd as <- <- <- <-. rewrite Nat.add_0_r.
-             split; [split; [exact Hwf|rewrite Eph; split; [exact Hr|]; split; [exact Hg|];
-                             exists prev, rest; repeat split; assumption]|].
-             split; [destruct b; reflexivity|].
-             split; [destruct b; cbn; [exact I|reflexivity]|].
-             unfold poll_ok. split; [discriminate|]. split; [discriminate|].
-             split; [split; [intros []|intros [_ [v Hv]]; discriminate]|intros []].
+          -- injection Hd as <- <- <- <- <-. stay HI0.
       + (* PDone *)
-        injection Hd as <- <- <- <-. rewrite Nat.add_0_r.
-        split; [split; [exact Hwf|rewrite Eph; exact Hph]|].
-        split; [destruct b; reflexivity|].
-        split; [destruct b; cbn; [exact I|reflexivity]|].
+        injection Hd as <- <- <- <- <-. rewrite app_nil_r.
+        split; [exact HI0|]. split; [apply apply_ops_nil|]. split; [apply ops_ok_nil|].
         unfold poll_ok. split; [intros _; split; [exact Eph|reflexivity]|]. split; [discriminate|].
-        split; [split; [intros []|intros [_ [v Hv]]; discriminate]|intros []].
+        split; [split; [intros []|intros [_ [v Hv]]; discriminate]|].
+        split; [intros []|discriminate].
   Qed.
-
   (* ---------- the shared bucket ---------- *)
   Lemma bucket_ops bo : forall bk,
     consistent bk bo -> 0 <= tokens bk -> 0 <= max_tokens bk ->
@@ -865,13 +901,46 @@ Section RetryProofs.
     | _, _ => False
     end.
 
+
+  (* the budget operations of request i, oldest first *)
+  Definition ops_of (i : nat) (ol : list (nat * bop)) : list bop :=
+    rev (map snd (filter (fun x => Nat.eqb (fst x) i) ol)).
+
+  Lemma filter_pair_rev i j (bo : list bop) :
+    filter (fun x : nat * bop => Nat.eqb (fst x) j) (rev (map (pair i) bo)) =
+    if Nat.eqb i j then rev (map (pair i) bo) else [].
+  Proof.
+    induction bo as [|o bo IH]; cbn [map rev]; [destruct (Nat.eqb i j); reflexivity|].
+    rewrite filter_app, IH. cbn [filter fst].
+    destruct (Nat.eqb i j); [reflexivity|reflexivity].
+  Qed.
+
+  Lemma ops_of_poll i j bo ol :
+    ops_of j (rev (map (pair i) bo) ++ ol) = ops_of j ol ++ (if Nat.eqb i j then bo else []).
+  Proof.
+    unfold ops_of. rewrite filter_app, map_app, rev_app_distr. f_equal.
+    rewrite filter_pair_rev. destruct (Nat.eqb i j); [|reflexivity].
+    rewrite <- map_rev, rev_involutive, map_map. cbn [snd]. apply map_id.
+  Qed.
+
+  Lemma ngr_ops_of i ol : ngr (ops_of i ol) = grants_of i ol.
+  Proof.
+    unfold ngr, ops_of, grants_of. rewrite len_filter_rev.
+    induction ol as [|[j o] ol IH]; [reflexivity|].
+    cbn [filter fst snd]. destruct (Nat.eqb j i); cbn [andb map filter snd].
+    - destruct (is_grant o); cbn [length]; rewrite IH; reflexivity.
+    - exact IH.
+  Qed.
+
+
+  (* ---------- global invariant ---------- *)
   Definition GI (c : cfg) (inps : nat -> rin) (b0 : option bucket) (s : st) : Prop :=
-    (forall i, RI c (inps i) (is_some b0) (now s) (reqs s i) (grants_of i (oplog s))) /\ BI b0 s.
+    (forall i, RI c (inps i) (is_some b0) (now s) (reqs s i) (ops_of i (oplog s))) /\ BI b0 s.
 
   Lemma BI_is_some b0 s : BI b0 s -> is_some (bud s) = is_some b0.
   Proof. unfold BI. destruct b0, (bud s); cbn; tauto. Qed.
 
-  Lemma RI_mono c inp hb t t' r g : t <= t' -> RI c inp hb t r g -> RI c inp hb t' r g.
+  Lemma RI_mono c inp hb t t' r ol : t <= t' -> RI c inp hb t r ol -> RI c inp hb t' r ol.
   Proof.
     intros Ht [Hwf H]. split; [exact Hwf|]. destruct (ph r); try exact H.
     - destruct H as [H1 [H2 [H3 H4]]]. repeat split; try assumption; try tauto. lia.
@@ -887,22 +956,22 @@ Section RetryProofs.
       unfold all_grants, all_deposits, ngr, ndep. cbn. lia.
   Qed.
 
-  Lemma GI_step c inps b0 s e : wf_bucket b0 -> GI c inps b0 s -> GI c inps b0 (step_st c inps s e).
+  Lemma GI_step c inps pf cp b0 s e : wf_bucket b0 -> GI c inps b0 s -> GI c inps b0 (step_st c inps pf cp s e).
   Proof.
     intros Hb0 [HR HB]. unfold step_st. destruct e as [i|d|i|i]; cbn [step].
     - (* Poll *)
-      destruct (drive c (inps i) (poll_fuel (inps i)) (now s) (reqs s i) (bud s))
-        as [[[r' b'] bo] p] eqn:Ed.
+      destruct (drive c (inps i) pf cp (now s) (reqs s i) (bud s))
+        as [[[[r' b'] bo] p] sw] eqn:Ed.
       cbn [fst]. pose proof (BI_is_some _ _ HB) as Hsome.
       pose proof (HR i) as Hi. rewrite <- Hsome in Hi.
-      destruct (drive_RI _ _ _ _ _ _ _ _ _ _ _ Hi Ed) as [H1 [H2 [H3 _]]].
+      destruct (drive_RI _ _ _ _ _ _ _ _ _ _ _ _ _ Hi Ed) as [H1 [H2 [H3 _]]].
       rewrite Hsome in H1. split.
-      + intros j. cbn [now reqs oplog]. rewrite grants_of_poll.
+      + intros j. cbn [now reqs oplog]. rewrite ops_of_poll.
         destruct (Nat.eq_dec j i) as [->|Hne].
-        * rewrite upd_same, Nat.eqb_refl, Nat.add_comm. exact H1.
+        * rewrite upd_same, Nat.eqb_refl. exact H1.
         * rewrite upd_other by exact Hne.
           replace (Nat.eqb i j) with false by (symmetry; apply Nat.eqb_neq; congruence).
-          apply HR.
+          rewrite app_nil_r. apply HR.
       + unfold BI in *. cbn [bud oplog]. destruct (all_counts_poll i bo (oplog s)) as [Eg Edp].
         rewrite Eg, Edp. subst b'. destruct b0 as [k0|], (bud s) as [k|]; cbn [apply_ops]; try tauto.
         destruct HB as [Hm [H0 Hle]]. cbn in Hb0. cbn [ops_ok] in H3.
@@ -926,11 +995,18 @@ Section RetryProofs.
       cbn [ph log attempt res cur_start]. exact HR.
   Qed.
 
-  Lemma GI_reach c inps b0 evs :
-    wf_bucket b0 -> Forall (GI c inps b0) (states (step_st c inps) (init b0) evs).
+  Lemma GI_reach c inps pf cp b0 evs :
+    wf_bucket b0 -> Forall (GI c inps b0) (states (step_st c inps pf cp) (init b0) evs).
   Proof.
     intros Hb. apply reach_inv; [apply GI_init; exact Hb|].
     intros s e H. apply GI_step; assumption.
+  Qed.
+
+  Lemma GI_fold c inps pf cp b0 evs :
+    wf_bucket b0 -> GI c inps b0 (fold_left (step_st c inps pf cp) evs (init b0)).
+  Proof.
+    intros Hb. apply fold_left_inv; [apply GI_init; exact Hb|].
+    intros s0 e H. apply GI_step; assumption.
   Qed.
 
   (* ---------- what the invariant says about inner calls ---------- *)
@@ -944,72 +1020,68 @@ Section RetryProofs.
     destruct (ph r); reflexivity.
   Qed.
 
-  Lemma RI_calls c inp hb t r g :
-    RI c inp hb t r g ->
-    (length (started_calls r) <= Nat.max 1 (r_max inp))%nat /\ (hb = true -> (retries r <= g)%nat).
+  Lemma wf_log_max c inp l : wf_log c inp l -> (length l <= Nat.max 1 (r_max inp))%nat.
+  Proof.
+    destruct l as [|cl [|prev rest]]; cbn [length]; try lia.
+    intros [_ [_ [_ [[[e [_ [_ Hlt]]] _] Hwf]]]]. apply wf_log_length in Hwf. cbn [length]. lia.
+  Qed.
+
+  Lemma RI_calls c inp hb t r ol :
+    RI c inp hb t r ol ->
+    (length (started_calls r) <= Nat.max 1 (r_max inp))%nat /\ (hb = true -> (retries r <= ngr ol)%nat).
   Proof.
     intros [Hwf H]. unfold retries. rewrite started_length.
+    pose proof (wf_log_max _ _ _ Hwf) as Hmax.
     assert (Hlog : forall prev rest, log r = prev :: rest -> retryable c inp prev ->
-                   (length (log r) <= r_max inp)%nat /\ length (log r) = S (c_idx prev)).
+                   (S (length (log r)) <= r_max inp)%nat /\ length (log r) = S (c_idx prev)).
     { intros prev rest Hl [e [_ [_ Hlt]]]. rewrite Hl in *. apply wf_log_length in Hwf.
       cbn [length]. lia. }
     destruct (ph r) as [|av|dl|rel|].
-    - destruct H as [_ [Hl _]]. rewrite Hl. cbn. split; lia.
-    - destruct H as [Ha [_ [_ [Hg Hp]]]]. destruct (log r) as [|prev rest] eqn:El.
-      + cbn [length] in *. split; [lia|]. intros Hb. specialize (Hg Hb). lia.
+    - destruct H as [_ [Hl [_ ->]]]. rewrite Hl. cbn. split; lia.
+    - destruct H as [Ha [_ [_ [-> Hp]]]]. destruct (log r) as [|prev rest] eqn:El.
+      + cbn [length] in *. split; [lia|]. intros ->. rewrite ngr_gr. lia.
       + destruct Hp as [Hre _]. destruct (Hlog prev rest eq_refl Hre) as [H1 H2].
-        destruct Hre as [e [_ [_ Hlt]]]. split; [lia|]. intros Hb. specialize (Hg Hb). lia.
-    - destruct H as [_ [Hg [prev [rest [Hl [Hi [Hre _]]]]]]].
-      destruct (Hlog prev rest Hl Hre) as [H1 H2]. split; [lia|]. intros Hb. specialize (Hg Hb). lia.
-    - destruct H as [_ [Hg [prev [rest [Hl [Hi [Hre _]]]]]]].
-      destruct (Hlog prev rest Hl Hre) as [H1 H2]. split; [lia|]. intros Hb. specialize (Hg Hb). lia.
-    - destruct H as [Hg [x [w [_ Hd]]]]. unfold done_spec in Hd.
-      assert (Hgen : forall cl rest, log r = cl :: rest -> c_idx cl = attempt r ->
-                (length (log r) + 0 <= Nat.max 1 (r_max inp))%nat /\
-                (hb = true -> (Nat.pred (length (log r) + 0) <= g)%nat)).
-      { intros cl rest Hl Hi. pose proof Hwf as Hwf2. rewrite Hl in Hwf2. cbn [wf_log] in Hwf2.
-        destruct Hwf2 as [Hidx [_ [_ [Hp _]]]]. rewrite Hl. cbn [length].
-        split.
-        - destruct rest as [|prev rest']; cbn [length] in *; [lia|].
-          destruct Hp as [[e [_ [_ Hlt]]] _]. rewrite Hl in Hwf. cbn [wf_log] in Hwf.
-          destruct Hwf as [_ [_ [_ [_ Hwf']]]]. apply wf_log_length in Hwf'. lia.
-        - intros Hb. specialize (Hg Hb). lia. }
-      destruct w; try contradiction;
-        try (destruct Hd as [cl [rest [Hl [Hi _]]]]; exact (Hgen cl rest Hl Hi)).
-      destruct Hd as [prev [rest [e [Hl [Hi [Hre _]]]]]].
-      destruct (Hlog prev rest Hl Hre) as [H1 H2]. split; [lia|]. intros Hb. specialize (Hg Hb). lia.
+        split; [lia|]. intros ->. rewrite ngr_gr. lia.
+    - destruct H as [_ [-> [prev [rest [Hl [Hi [Hre _]]]]]]].
+      destruct (Hlog prev rest Hl Hre) as [H1 H2]. split; [lia|]. intros ->. rewrite ngr_gr. lia.
+    - destruct H as [_ [-> [prev [rest [Hl [Hi [Hre _]]]]]]].
+      destruct (Hlog prev rest Hl Hre) as [H1 H2]. split; [lia|]. intros ->. rewrite ngr_gr. lia.
+    - destruct H as [x [w [_ [_ ->]]]]. split; [lia|]. intros ->. rewrite ngr_app, ngr_gr. lia.
   Qed.
 
   (* C05_shared_budget *)
-  Lemma shared_budget (c : cfg) (inps : nat -> rin) (k0 : bucket) evs n :
+  Lemma shared_budget (c : cfg) (inps : nat -> rin) pf cp (k0 : bucket) evs n :
     0 <= tokens k0 -> 0 <= max_tokens k0 ->
     Forall (fun s => exists k, bud s = Some k /\ 0 <= tokens k /\
               Z.of_nat (sumn (fun i => retries (reqs s i)) n) * SCALE + tokens k <=
               tokens k0 + Z.of_nat (all_deposits (oplog s)) * SCALE)
-           (states (step_st c inps) (init (Some k0)) evs).
+           (states (step_st c inps pf cp) (init (Some k0)) evs).
   Proof.
-    intros H0 Hm. eapply Forall_impl; [|apply (GI_reach c inps (Some k0) evs); cbn; split; assumption].
+    intros H0 Hm. eapply Forall_impl; [|apply (GI_reach c inps pf cp (Some k0) evs); cbn; split; assumption].
     intros s [HR HB]. unfold BI in HB. destruct (bud s) as [k|]; [|contradiction].
     destruct HB as [_ [Hk Hle]]. exists k. split; [reflexivity|]. split; [exact Hk|].
     assert (Hs : (sumn (fun i => retries (reqs s i)) n <= all_grants (oplog s))%nat).
     { etransitivity; [|apply (sum_grants_le (oplog s) n)]. apply sumn_le. intros i _.
-      destruct (RI_calls _ _ _ _ _ _ (HR i)) as [_ H]. apply H. reflexivity. }
+      destruct (RI_calls _ _ _ _ _ _ (HR i)) as [_ H]. rewrite <- ngr_ops_of. apply H. reflexivity. }
     unfold SCALE in *. lia.
   Qed.
 
   (* any schedule, any interleaving: per-request clauses *)
-  Definition sched_spec (c : cfg) (inp : rin) (hb : bool) (t : Z) (r : rst) : Prop :=
+  Definition sched_spec (c : cfg) (inp : rin) (hb : bool) (r : rst) (ol : list bop) : Prop :=
     (length (started_calls r) <= Nat.max 1 (r_max inp))%nat /\
+    (hb = true -> (retries r <= ngr ol)%nat) /\
     wf_log c inp (log r) /\
     (forall av prev rest, ph r = PCalling av -> log r = prev :: rest ->
-        retryable c inp prev /\ c_end prev + Z.max 0 (backoff c (c_idx prev)) <= cur_start r) /\
+        retryable c inp prev /\ wake_at c prev <= cur_start r /\
+        not_rerr (r_ready inp (attempt r))) /\
     (ph r = PDone <-> res r <> None) /\
-    (forall x w, res r = Some (x, w) -> done_spec c inp hb r x w).
+    (forall x w, res r = Some (x, w) ->
+       done_spec c inp hb r x w /\ ol = gr hb (length (log r) - 1) ++ tail_ops hb w).
 
-  Lemma RI_sched c inp hb t r g : RI c inp hb t r g -> sched_spec c inp hb t r.
+  Lemma RI_sched c inp hb t r ol : RI c inp hb t r ol -> sched_spec c inp hb r ol.
   Proof.
-    intros H. pose proof (RI_calls _ _ _ _ _ _ H) as [Hc _]. destruct H as [Hwf H].
-    split; [exact Hc|]. split; [exact Hwf|].
+    intros H. pose proof (RI_calls _ _ _ _ _ _ H) as [Hc Hg]. destruct H as [Hwf H].
+    split; [exact Hc|]. split; [exact Hg|]. split; [exact Hwf|].
     destruct (ph r) as [|av|dl|rel|] eqn:Eph.
     - destruct H as [_ [_ [Hr _]]]. rewrite Hr.
       split; [discriminate|]. split; [split; [discriminate|congruence]|discriminate].
@@ -1020,41 +1092,42 @@ Section RetryProofs.
       split; [discriminate|]. split; [split; [discriminate|congruence]|discriminate].
     - destruct H as [Hr _]. rewrite Hr.
       split; [discriminate|]. split; [split; [discriminate|congruence]|discriminate].
-    - destruct H as [_ [x [w [Hr Hd]]]]. rewrite Hr.
+    - destruct H as [x [w [Hr Hd]]]. rewrite Hr.
       split; [discriminate|]. split; [split; [discriminate|reflexivity]|].
       intros x' w' E. injection E as <- <-. exact Hd.
   Qed.
 
-  Lemma any_schedule (c : cfg) (inps : nat -> rin) b0 evs :
+  Lemma any_schedule (c : cfg) (inps : nat -> rin) pf cp b0 evs :
     wf_bucket b0 ->
-    Forall (fun s => forall i, sched_spec c (inps i) (is_some b0) (now s) (reqs s i))
-           (states (step_st c inps) (init b0) evs).
+    Forall (fun s => forall i, sched_spec c (inps i) (is_some b0) (reqs s i) (ops_of i (oplog s)))
+           (states (step_st c inps pf cp) (init b0) evs).
   Proof.
-    intros Hb. eapply Forall_impl; [|apply (GI_reach c inps b0 evs Hb)].
+    intros Hb. eapply Forall_impl; [|apply (GI_reach c inps pf cp b0 evs Hb)].
     intros s [HR _] i. eapply RI_sched. apply HR.
   Qed.
 
   (* a poll before the deadline of the backoff sleep does nothing; the first poll at or
      after it (service ready) issues the next inner call at that very instant *)
-  Lemma poll_before_deadline (c : cfg) (inp : rin) f t r b dl :
-    ph r = PSleeping dl -> t < dl -> drive c inp (S f) t r b = (r, b, [], Pending).
+  Lemma poll_before_deadline (c : cfg) (inp : rin) f k t r b dl :
+    ph r = PSleeping dl -> t < dl -> drive c inp (S f) (S k) t r b = (r, b, [], Pending, false).
   Proof.
     intros Hp Ht. cbn [drive]. rewrite Hp.
     replace (dl <=? t) with false by (symmetry; apply Z.leb_gt; exact Ht). reflexivity.
   Qed.
 
-  Lemma poll_at_deadline (c : cfg) (inp : rin) f t r b dl :
+  Lemma poll_at_deadline (c : cfg) (inp : rin) f k t r b dl :
     ph r = PSleeping dl -> dl <= t -> r_ready inp (S (attempt r)) = ROk ->
-    drive c inp (S (S f)) t r b =
-    drive c inp f t (mkRst (PCalling (negb (fst (r_inner inp (S (attempt r)))))) (S (attempt r)) t
-                           (log r) (res r)) b.
+    drive c inp (S (S f)) (S k) t r b =
+    drive c inp f k t (mkRst (PCalling (negb (fst (r_inner inp (S (attempt r)))))) (S (attempt r)) t
+                             (log r) (res r)) b.
   Proof.
     intros Hp Ht Hr. cbn [drive]. rewrite Hp.
     replace (dl <=? t) with true by (symmetry; apply Z.leb_le; exact Ht).
     cbn [ph attempt]. rewrite Hr. reflexivity.
   Qed.
 
-  (* ---------- a poll only returns Pending when the future really waits ---------- *)
+  (* ---------- progress: a poll only returns Pending when the future really waits, or
+     when the cooperative budget of the poll is used up (then it has woken itself) ---------- *)
   Definition waiting (inp : rin) (t : Z) (r : rst) : Prop :=
     match ph r with
     | PCalling false => True
@@ -1063,75 +1136,125 @@ Section RetryProofs.
     | _ => False
     end.
 
-  Definition mu (inp : rin) (r : rst) : nat :=
-    let m := (Nat.max 1 (r_max inp) - attempt r)%nat in
-    match ph r with
-    | PInit | PReadying _ => (4 * m + 3)%nat
-    | PCalling _ => (4 * m + 2)%nat
-    | PSleeping _ => (4 * m + 1)%nat
-    | PDone => 0%nat
-    end.
+  Definition mu (coop : nat) (r : rst) : nat :=
+    (4 * coop + match ph r with
+                | PInit | PReadying _ => 3 | PCalling _ => 2 | PSleeping _ => 1 | PDone => 0
+                end)%nat.
 
-  Definition sleep_ok (inp : rin) (r : rst) : Prop :=
-    forall dl, ph r = PSleeping dl -> (S (attempt r) < r_max inp)%nat.
-
-  Lemma drive_progress (c : cfg) (inp : rin) fuel : forall t r b r' b' bo,
-    sleep_ok inp r -> (mu inp r < fuel)%nat ->
-    drive c inp fuel t r b = (r', b', bo, Pending) -> waiting inp t r'.
+  Lemma drive_progress (c : cfg) (inp : rin) fuel : forall coop t r b r' b' bo,
+    (mu coop r < fuel)%nat ->
+    drive c inp fuel coop t r b = (r', b', bo, Pending, false) -> waiting inp t r'.
   Proof.
-    induction fuel as [|f IH]; intros t r b r' b' bo Hs Hmu Hd; [lia|].
+    induction fuel as [|f IH]; intros coop t r b r' b' bo Hmu Hd; [lia|].
     cbn [drive] in Hd. unfold mu in Hmu.
     destruct (ph r) as [|av|dl|rel|] eqn:Eph.
-    - eapply IH; [| |exact Hd].
-      + intros dl H. discriminate.
-      + unfold mu, start_call. cbn [ph attempt]. lia.
-    - destruct av.
+    - eapply IH; [|exact Hd]. unfold mu, start_call. cbn [ph]. lia.
+    - destruct (fst (r_inner inp (attempt r)) && (coop =? 0)%nat); [discriminate|].
+      destruct av; cbn [negb] in Hd.
       2:{ injection Hd as <- <- <-. unfold waiting. rewrite Eph. exact I. }
       destruct (after_outcome c (is_some b) (r_max inp) (attempt r)
                   (snd (r_inner inp (attempt r)))
                   match b with Some bk => fst (tb_try_withdraw bk) | None => true end)
         as [bo0 act] eqn:Ea.
       destruct act as [x w|d]; [discriminate|].
-      apply after_retry in Ea. destruct Ea as [e [_ [_ [Hlt _]]]].
-      destruct (drive c inp f t _ (apply_ops b bo0)) as [[[r1 b1] bo1] p1] eqn:Ed.
-      injection Hd as <- <- <- ->.
-      eapply IH; [| |exact Ed].
-      + intros dl _. cbn [attempt]. exact Hlt.
-      + unfold mu. cbn [ph attempt]. lia.
-    - destruct (dl <=? t) eqn:Et.
-      + specialize (Hs dl Eph). eapply IH; [| |exact Hd].
-        * intros dl' H. discriminate.
-        * unfold mu. cbn [ph attempt]. lia.
+      destruct (drive c inp f _ t _ (apply_ops b bo0)) as [[[[r1 b1] bo1] p1] sw1] eqn:Ed.
+      injection Hd as <- <- <- -> ->.
+      eapply IH; [|exact Ed]. unfold mu. cbn [ph].
+      destruct (fst (r_inner inp (attempt r))); lia.
+    - destruct coop as [|k]; [discriminate|].
+      destruct (dl <=? t) eqn:Et.
+      + eapply IH; [|exact Hd]. unfold mu. cbn [ph]. lia.
       + injection Hd as <- <- <-. unfold waiting. rewrite Eph. apply Z.leb_gt. exact Et.
     - destruct (r_ready inp (attempt r)) as [|e|] eqn:Er.
-      + eapply IH; [| |exact Hd].
-        * intros dl H. discriminate.
-        * unfold mu, start_call. cbn [ph attempt]. lia.
+      + eapply IH; [|exact Hd]. unfold mu, start_call. cbn [ph]. lia.
       + discriminate.
       + destruct rel.
-        * eapply IH; [| |exact Hd].
-          -- intros dl H. discriminate.
-          -- unfold mu, start_call. cbn [ph attempt]. lia.
+        * eapply IH; [|exact Hd]. unfold mu, start_call. cbn [ph]. lia.
         * injection Hd as <- <- <-. unfold waiting. rewrite Eph. exact Er.
     - discriminate.
   Qed.
 
-  Lemma RI_sleep_ok c inp hb t r g : RI c inp hb t r g -> sleep_ok inp r.
+  Lemma mu_lt_fuel pf cp r : (4 * cp + 3 < pf)%nat -> (mu cp r < pf)%nat.
+  Proof. unfold mu. destruct (ph r); lia. Qed.
+
+  Lemma poll_fuel_enough : (4 * COOP + 3 < poll_fuel)%nat.
+  Proof. unfold poll_fuel. lia. Qed.
+
+  (* a poll that ends on an exhausted budget has used it: every unit went into a completed
+     backoff sleep (one attempt each), except at most one for the result of a gated call *)
+  Lemma drive_selfwake (c : cfg) (inp : rin) fuel : forall coop t r b r' b' bo p,
+    drive c inp fuel coop t r b = (r', b', bo, p, true) ->
+    (attempt r <= attempt r')%nat /\
+    (coop <= attempt r' - attempt r +
+             match ph r with
+             | PCalling true => if fst (r_inner inp (attempt r)) then 1 else 0
+             | _ => 0
+             end)%nat /\
+    match ph r' with
+    | PSleeping _ => True
+    | PCalling _ => fst (r_inner inp (attempt r')) = true
+    | _ => False
+    end.
   Proof.
-    intros [_ H] dl Hp. rewrite Hp in H.
-    destruct H as [_ [_ [prev [rest [_ [Hi [[e [_ [_ Hlt]]] _]]]]]]]. lia.
+    induction fuel as [|f IH]; intros coop t r b r' b' bo p Hd; [discriminate|].
+    cbn [drive] in Hd. destruct (ph r) as [|av|dl|rel|] eqn:Eph.
+    - apply IH in Hd. unfold start_call in Hd. cbn [ph attempt] in Hd.
+      destruct Hd as [H1 [H2 H3]]. split; [exact H1|]. split; [|exact H3].
+      destruct (fst (r_inner inp (attempt r))); cbn [negb] in H2; lia.
+    - destruct (fst (r_inner inp (attempt r))) eqn:Eg; cbn [andb] in Hd.
+      + destruct (coop =? 0)%nat eqn:E0.
+        * injection Hd as <- _ _ _. apply Nat.eqb_eq in E0. rewrite Eph, Eg.
+          split; [lia|]. split; [lia|reflexivity].
+        * destruct av; cbn [negb] in Hd; [|discriminate].
+          destruct (after_outcome c (is_some b) (r_max inp) (attempt r)
+                      (snd (r_inner inp (attempt r)))
+                      match b with Some bk => fst (tb_try_withdraw bk) | None => true end)
+            as [bo0 act].
+          destruct act as [x w|d]; [discriminate|].
+          destruct (drive c inp f _ t _ (apply_ops b bo0)) as [[[[r1 b1] bo1] p1] sw1] eqn:Ed.
+          injection Hd as <- _ _ _ ->. apply IH in Ed. cbn [ph attempt] in Ed.
+          destruct Ed as [H1 [H2 H3]]. split; [exact H1|]. split; [lia|exact H3].
+      + destruct av; cbn [negb] in Hd; [|discriminate].
+        destruct (after_outcome c (is_some b) (r_max inp) (attempt r)
+                    (snd (r_inner inp (attempt r)))
+                    match b with Some bk => fst (tb_try_withdraw bk) | None => true end)
+          as [bo0 act].
+        destruct act as [x w|d]; [discriminate|].
+        destruct (drive c inp f _ t _ (apply_ops b bo0)) as [[[[r1 b1] bo1] p1] sw1] eqn:Ed.
+        injection Hd as <- _ _ _ ->. apply IH in Ed. cbn [ph attempt] in Ed.
+        destruct Ed as [H1 [H2 H3]]. split; [exact H1|]. split; [lia|exact H3].
+    - destruct coop as [|k].
+      + injection Hd as <- _ _ _. rewrite Eph. split; [lia|]. split; [lia|exact I].
+      + destruct (dl <=? t); [|discriminate].
+        apply IH in Hd. cbn [ph attempt] in Hd. destruct Hd as [H1 [H2 H3]].
+        split; [lia|]. split; [lia|exact H3].
+    - destruct (r_ready inp (attempt r)) as [|e|].
+      + apply IH in Hd. unfold start_call in Hd. cbn [ph attempt] in Hd.
+        destruct Hd as [H1 [H2 H3]]. split; [exact H1|]. split; [|exact H3].
+        destruct (fst (r_inner inp (attempt r))); cbn [negb] in H2; lia.
+      + discriminate.
+      + destruct rel; [|discriminate].
+        apply IH in Hd. unfold start_call in Hd. cbn [ph attempt] in Hd.
+        destruct Hd as [H1 [H2 H3]]. split; [exact H1|]. split; [|exact H3].
+        destruct (fst (r_inner inp (attempt r))); cbn [negb] in H2; lia.
+    - discriminate.
   Qed.
 
-  Lemma mu_lt_fuel inp r : (mu inp r < poll_fuel inp)%nat.
-  Proof. unfold mu, poll_fuel. destruct (ph r); lia. Qed.
-
   (* what one Poll event does, in any reachable state *)
-  Lemma poll_event (c : cfg) (inps : nat -> rin) b0 evs i :
-    wf_bucket b0 ->
-    let s := fold_left (step_st c inps) evs (init b0) in
-    let s' := fst (step c inps s (Poll i)) in
-    let o := snd (step c inps s (Poll i)) in
-    (o_res o = Pending -> waiting (inps i) (now s) (reqs s' i)) /\
+  Lemma poll_event (c : cfg) (inps : nat -> rin) pf cp b0 evs i :
+    wf_bucket b0 -> (4 * cp + 3 < pf)%nat ->
+    let s := fold_left (step_st c inps pf cp) evs (init b0) in
+    let s' := fst (step c inps pf cp s (Poll i)) in
+    let o := snd (step c inps pf cp s (Poll i)) in
+    (o_res o = Pending -> o_self o = false -> waiting (inps i) (now s) (reqs s' i)) /\
+    (o_self o = true ->
+       o_res o = Pending /\ woken s' i = true /\
+       (cp <= S (attempt (reqs s' i) - attempt (reqs s i)))%nat /\
+       match ph (reqs s' i) with
+       | PSleeping _ => True
+       | PCalling _ => fst (r_inner (inps i) (attempt (reqs s' i))) = true
+       | _ => False
+       end) /\
     (o_res o = Nothing -> ph (reqs s i) = PDone /\ reqs s' i = reqs s i) /\
     (forall x, o_res o = Ready x ->
        ph (reqs s i) <> PDone /\ ph (reqs s' i) = PDone /\ exists w, res (reqs s' i) = Some (x, w)) /\
@@ -1139,40 +1262,395 @@ Section RetryProofs.
     (In (BWithdraw false) (o_ops o) -> exists e, o_res o = Ready (inr e)) /\
     (is_some b0 = false -> o_ops o = []).
   Proof.
-    intros Hb. cbn zeta.
-    set (s := fold_left (step_st c inps) evs (init b0)).
-    assert (HG : GI c inps b0 s).
-    { apply fold_left_inv; [apply GI_init; exact Hb|]. intros s0 e H. apply GI_step; assumption. }
+    intros Hb Hpf. cbn zeta.
+    set (s := fold_left (step_st c inps pf cp) evs (init b0)).
+    pose proof (GI_fold c inps pf cp b0 evs Hb) as HG. fold s in HG.
     destruct HG as [HR HB]. cbn [step].
-    destruct (drive c (inps i) (poll_fuel (inps i)) (now s) (reqs s i) (bud s))
-      as [[[r' b'] bo] p] eqn:Ed.
-    cbn [fst snd o_res o_ops reqs]. rewrite upd_same.
+    destruct (drive c (inps i) pf cp (now s) (reqs s i) (bud s))
+      as [[[[r' b'] bo] p] sw] eqn:Ed.
+    cbn [fst snd o_res o_ops o_self reqs woken]. rewrite !upd_same.
     pose proof (BI_is_some _ _ HB) as Hsome. pose proof (HR i) as Hi. rewrite <- Hsome in Hi.
-    destruct (drive_RI _ _ _ _ _ _ _ _ _ _ _ Hi Ed) as [_ [_ [H3 [P1 [P2 [P3 P4]]]]]].
+    destruct (drive_RI _ _ _ _ _ _ _ _ _ _ _ _ _ Hi Ed) as [_ [_ [H3 [P1 [P2 [P3 [P4 P5]]]]]]].
     rewrite Hsome in *.
     split.
-    { intros ->. eapply drive_progress; [| |exact Ed].
-      - eapply RI_sleep_ok. exact Hi.
-      - apply mu_lt_fuel. }
+    { intros -> ->. eapply drive_progress; [|exact Ed]. apply mu_lt_fuel. exact Hpf. }
+    split.
+    { intros ->. split; [apply P5; reflexivity|]. split; [reflexivity|].
+      destruct (drive_selfwake _ _ _ _ _ _ _ _ _ _ _ Ed) as [S1 [S2 S3]].
+      split; [|exact S3].
+      destruct (ph (reqs s i)) as [|[|]| | |]; try lia.
+      destruct (fst (r_inner (inps i) (attempt (reqs s i)))); lia. }
     split; [exact P1|]. split; [exact P2|]. split; [exact P3|]. split; [exact P4|].
     intros Hn. unfold ops_ok in H3. destruct (bud s); [cbn in Hsome; congruence|exact H3].
+  Qed.
+
+  (* the budget operations of a poll are the token bucket's own answers, in order, and leave
+     the bucket in the corresponding state: a retry is denied only when the bucket refuses
+     (less than one token), and each request has at most as many retries as it was granted *)
+  Lemma poll_ops_consistent (c : cfg) (inps : nat -> rin) pf cp b0 evs i :
+    wf_bucket b0 ->
+    let s := fold_left (step_st c inps pf cp) evs (init b0) in
+    let s' := fst (step c inps pf cp s (Poll i)) in
+    let o := snd (step c inps pf cp s (Poll i)) in
+    ops_ok (bud s) (o_ops o) /\ bud s' = apply_ops (bud s) (o_ops o) /\
+    (forall j, is_some b0 = true -> (retries (reqs s' j) <= grants_of j (oplog s'))%nat).
+  Proof.
+    intros Hb. cbn zeta.
+    set (s := fold_left (step_st c inps pf cp) evs (init b0)).
+    pose proof (GI_fold c inps pf cp b0 evs Hb) as HG. fold s in HG.
+    pose proof (GI_step c inps pf cp b0 s (Poll i) Hb HG) as [HR' _].
+    destruct HG as [HR HB]. unfold step_st in HR'. cbn [step] in *.
+    destruct (drive c (inps i) pf cp (now s) (reqs s i) (bud s))
+      as [[[[r' b'] bo] p] sw] eqn:Ed.
+    cbn [fst snd o_ops bud] in *.
+    pose proof (BI_is_some _ _ HB) as Hsome. pose proof (HR i) as Hi. rewrite <- Hsome in Hi.
+    destruct (drive_RI _ _ _ _ _ _ _ _ _ _ _ _ _ Hi Ed) as [_ [H2 [H3 _]]].
+    split; [exact H3|]. split; [exact H2|].
+    intros j Hh. destruct (RI_calls _ _ _ _ _ _ (HR' j)) as [_ H]. rewrite <- ngr_ops_of.
+    apply H. exact Hh.
+  Qed.
+
+
+  (* ------------------------------------------------------------------ *)
+  (* refinement: what the step machine does for one request IS a run of [retry_run].
+     The streams are read off the request's log: outcomes and readiness errors are the
+     wrapped service's, durations and extra waits are the observed ones, the budget's
+     answers are the recorded ones. *)
+  Fixpoint w_dur (l : list call) (k : nat) : Z :=
+    match l with
+    | [] => 0
+    | cl :: rest => if Nat.eqb k (length rest) then c_end cl - c_start cl else w_dur rest k
+    end.
+
+  Fixpoint w_slack (c : cfg) (l : list call) (k : nat) : Z :=
+    match l with
+    | [] => 0
+    | cl :: rest =>
+      if Nat.eqb k (length rest) then
+        match rest with prev :: _ => c_start cl - wake_at c prev | [] => 0 end
+      else w_slack c rest k
+    end.
+
+  Fixpoint w_t0 (l : list call) : Z :=
+    match l with
+    | [] => 0
+    | cl :: rest => match rest with [] => c_start cl | _ => w_t0 rest end
+    end.
+
+  Definition rdy_err (x : rdy Err) : option Err := match x with RErr e => Some e | _ => None end.
+
+  Definition w_inner (inp : rin) (l : list call) (k : nat) : Z * outcome :=
+    (w_dur l k, snd (r_inner inp k)).
+  Definition w_ready (c : cfg) (inp : rin) (l : list call) (k : nat) : Z * option Err :=
+    (w_slack c l k, rdy_err (r_ready inp k)).
+  (* every withdrawal that was asked was granted, except the one that ended a WDenied run *)
+  Definition w_grant (l : list call) (w : why) (k : nat) : bool :=
+    negb (match w with WDenied => Nat.eqb (S k) (length l) | _ => false end).
+
+  (* a log (newest first) is what [go] produces from t0 on the given streams *)
+  Fixpoint replays (c : cfg) (inner : nat -> Z * outcome) (ready : nat -> Z * option Err)
+           (t0 : Z) (l : list call) : Prop :=
+    match l with
+    | [] => True
+    | cl :: rest =>
+      c_idx cl = length rest /\ c_out cl = snd (inner (c_idx cl)) /\
+      c_end cl = c_start cl + Z.max 0 (fst (inner (c_idx cl))) /\
+      match rest with
+      | [] => c_start cl = t0
+      | prev :: _ => c_start cl = wake_at c prev + Z.max 0 (fst (ready (c_idx cl)))
+      end /\ replays c inner ready t0 rest
+    end.
+
+  Lemma replays_of_wf c inp inner ready : forall l,
+    wf_log c inp l ->
+    (forall k, snd (inner k) = snd (r_inner inp k)) ->
+    (forall k, (k < length l)%nat -> fst (inner k) = w_dur l k /\ fst (ready k) = w_slack c l k) ->
+    replays c inner ready (w_t0 l) l.
+  Proof.
+    induction l as [|cl rest IH]; intros Hwf Hs Hk; [exact I|].
+    cbn [wf_log] in Hwf. destruct Hwf as [Hi [Ho [Hse [Hp Hwf]]]].
+    destruct (Hk (length rest)) as [Hd Hsl]; [cbn [length]; lia|].
+    cbn [w_dur w_slack] in Hd, Hsl. rewrite Nat.eqb_refl in Hd, Hsl.
+    cbn [replays]. split; [exact Hi|]. split; [rewrite Hs; exact Ho|].
+    split; [rewrite Hi, Hd; lia|].
+    assert (Hrest : replays c inner ready (w_t0 rest) rest).
+    { apply IH; [exact Hwf|exact Hs|]. intros k Hlt. destruct (Hk k) as [H1 H2]; [cbn [length]; lia|].
+      cbn [w_dur w_slack] in H1, H2.
+      replace (Nat.eqb k (length rest)) with false in H1, H2 by (symmetry; apply Nat.eqb_neq; lia).
+      split; assumption. }
+    destruct rest as [|prev rest'].
+    - split; [reflexivity|exact I].
+    - destruct Hp as [_ [Hw _]]. split; [rewrite Hi, Hsl; lia|]. exact Hrest.
+  Qed.
+
+  Lemma run_eta (r : run) : mkRun (calls r) (result r) (reason r) (ops r) = r.
+  Proof. destruct r; reflexivity. Qed.
+
+  Section Replay.
+    Context (c : cfg) (hb : bool) (max : nat) (inner : nat -> Z * outcome)
+            (ready : nat -> Z * option Err) (grant : nat -> bool) (t0 : Z).
+    Notation go := (go c hb max inner ready grant).
+    Notation stopb := (stop_at c hb max inner ready grant).
+
+    (* one step of [go] at an attempt that is retried *)
+    Lemma go_retry_step f a t :
+      stopb a = false ->
+      go (S f) a t =
+      let tf := t + Z.max 0 (fst (inner a)) in
+      let r := go f (S a) (ceil_ms (tf + Z.max 0 (backoff c a)) + Z.max 0 (fst (ready (S a)))) in
+      mkRun (mkCall a t tf (snd (inner a)) :: calls r) (result r) (reason r)
+            ((if hb then [BWithdraw true] else []) ++ ops r).
+    Proof.
+      intros Hst. destruct (stop_at_false _ _ _ _ _ _ _ Hst) as [e [Ho [Hs [Hlt [Hg Hr]]]]].
+      cbn [Retry.go]. unfold after_outcome. rewrite Ho, Hs. cbn [negb].
+      replace (max <=? a + 1)%nat with false by (symmetry; apply Nat.leb_gt; lia).
+      destruct hb.
+      - rewrite (Hg eq_refl), Hr. reflexivity.
+      - rewrite Hr. reflexivity.
+    Qed.
+
+    (* a replayed log all of whose calls but the newest were retried is a prefix of the run *)
+    Lemma go_replay : forall rest cl f,
+      replays c inner ready t0 (cl :: rest) ->
+      (forall k, (k < length rest)%nat -> stopb k = false) ->
+      go (f + length rest) 0 t0 =
+      let r := go f (length rest) (c_start cl) in
+      mkRun (rev rest ++ calls r) (result r) (reason r) (gr hb (length rest) ++ ops r).
+    Proof.
+      induction rest as [|prev rest' IH]; intros cl f Hrp Hst.
+      - cbn [replays] in Hrp. destruct Hrp as [_ [_ [_ [Ht _]]]].
+        cbn [length rev app]. rewrite Nat.add_0_r, Ht. cbn zeta.
+        unfold gr. replace (if hb then repeat (BWithdraw true) 0 else []) with (@nil bop) by (destruct hb; reflexivity).
+        cbn [app]. symmetry. apply run_eta.
+      - cbn [replays] in Hrp. destruct Hrp as [Hi [Ho [He [Hs Hrp']]]].
+        cbn [length]. replace (f + S (length rest'))%nat with (S f + length rest')%nat by lia.
+        rewrite (IH prev (S f) Hrp') by (intros k Hk; apply Hst; cbn [length]; lia).
+        cbn zeta.
+        pose proof Hrp' as Hp. cbn [replays] in Hp. destruct Hp as [Hpi [Hpo [Hpe _]]].
+        rewrite go_retry_step by (apply Hst; cbn [length]; lia). cbn zeta.
+        cbn [calls result reason ops].
+        assert (Hprev : mkCall (length rest') (c_start prev)
+                          (c_start prev + Z.max 0 (fst (inner (length rest'))))
+                          (snd (inner (length rest'))) = prev).
+        { destruct prev as [pi ps pe po]. cbn [c_idx c_start c_end c_out] in *. subst pi.
+          rewrite <- Hpe, <- Hpo. reflexivity. }
+        rewrite Hprev.
+        assert (Hnext : ceil_ms (c_start prev + Z.max 0 (fst (inner (length rest'))) +
+                                 Z.max 0 (backoff c (length rest'))) +
+                        Z.max 0 (fst (ready (S (length rest')))) = c_start cl).
+        { rewrite Hs. unfold wake_at. rewrite Hpe, Hpi, Hi. cbn [length]. reflexivity. }
+        rewrite Hnext. f_equal.
+        + cbn [rev]. rewrite <- app_assoc. reflexivity.
+        + rewrite app_assoc, gr_S. reflexivity.
+    Qed.
+  End Replay.
+
+  Lemma wf_retried c inp : forall l k,
+    wf_log c inp l -> (S k < length l)%nat ->
+    exists e, snd (r_inner inp k) = Fail e /\ should_retry c e = true /\ (S k < r_max inp)%nat /\
+              not_rerr (r_ready inp (S k)).
+  Proof.
+    induction l as [|cl rest IH]; intros k Hwf Hk; [cbn in Hk; lia|].
+    cbn [wf_log] in Hwf. destruct Hwf as [Hi [_ [_ [Hp Hwf]]]]. cbn [length] in Hk.
+    destruct (Nat.eq_dec (S k) (length rest)) as [E|NE]; [|apply IH; [exact Hwf|lia]].
+    destruct rest as [|prev rest']; [cbn in E; lia|].
+    destruct Hp as [[e [Ho [Hs Hlt]]] [_ Hnr]].
+    cbn [wf_log] in Hwf. destruct Hwf as [Hpi [Hpo _]]. cbn [length] in E.
+    assert (Hk' : c_idx prev = k) by lia.
+    exists e. rewrite <- Hk', <- Hpo. split; [exact Ho|]. split; [exact Hs|]. split; [exact Hlt|].
+    rewrite Hi in Hnr. cbn [length] in Hnr. rewrite Hpi. exact Hnr.
+  Qed.
+
+  Section Finish.
+    Context (c : cfg) (hb : bool) (max : nat) (inner : nat -> Z * outcome)
+            (ready : nat -> Z * option Err) (grant : nat -> bool) (t0 : Z).
+    Notation go := (go c hb max inner ready grant).
+    Notation stopb := (stop_at c hb max inner ready grant).
+
+    Lemma go_return f a t bo (x : Res + Err) w :
+      after_outcome c hb max a (snd (inner a)) (grant a) = (bo, AReturn x w) ->
+      go f a t = mkRun [mkCall a t (t + Z.max 0 (fst (inner a))) (snd (inner a))] x w bo.
+    Proof. intros H. destruct f; cbn [Retry.go]; rewrite H; reflexivity. Qed.
+
+    Lemma go_not_ready f a t bo d e :
+      after_outcome c hb max a (snd (inner a)) (grant a) = (bo, ARetry d) ->
+      snd (ready (S a)) = Some e ->
+      go (S f) a t =
+      mkRun [mkCall a t (t + Z.max 0 (fst (inner a))) (snd (inner a))] (inr e) WNotReady bo.
+    Proof. intros H Hr. cbn [Retry.go]. rewrite H, Hr. reflexivity. Qed.
+
+    Lemma call_eta (cl : call) a t tf o :
+      c_idx cl = a -> c_start cl = t -> c_end cl = tf -> c_out cl = o -> mkCall a t tf o = cl.
+    Proof. destruct cl; cbn. intros <- <- <- <-. reflexivity. Qed.
+
+    Lemma newest_eta cl rest :
+      replays c inner ready t0 (cl :: rest) ->
+      mkCall (length rest) (c_start cl) (c_start cl + Z.max 0 (fst (inner (length rest))))
+             (snd (inner (length rest))) = cl.
+    Proof.
+      cbn [replays]. intros [Hi [Ho [He _]]]. rewrite Hi in *.
+      apply call_eta; [exact Hi|reflexivity|exact He|exact Ho].
+    Qed.
+
+    Lemma refine_return cl rest F bo (x : Res + Err) w :
+      replays c inner ready t0 (cl :: rest) ->
+      (forall k, (k < length rest)%nat -> stopb k = false) ->
+      (length rest <= F)%nat ->
+      after_outcome c hb max (length rest) (snd (inner (length rest))) (grant (length rest))
+        = (bo, AReturn x w) ->
+      go F 0 t0 = mkRun (rev (cl :: rest)) x w (gr hb (length rest) ++ bo).
+    Proof.
+      intros Hrp Hst HF Ha.
+      replace F with ((F - length rest) + length rest)%nat by lia.
+      rewrite (go_replay c hb max inner ready grant t0 rest cl _ Hrp Hst). cbn zeta.
+      rewrite (go_return _ _ _ _ _ _ Ha). cbn [calls result reason ops].
+      rewrite (newest_eta _ _ Hrp). reflexivity.
+    Qed.
+
+    Lemma refine_not_ready cl rest F bo d e :
+      replays c inner ready t0 (cl :: rest) ->
+      (forall k, (k < length rest)%nat -> stopb k = false) ->
+      (S (length rest) <= F)%nat ->
+      after_outcome c hb max (length rest) (snd (inner (length rest))) (grant (length rest))
+        = (bo, ARetry d) ->
+      snd (ready (S (length rest))) = Some e ->
+      go F 0 t0 = mkRun (rev (cl :: rest)) (inr e) WNotReady (gr hb (length rest) ++ bo).
+    Proof.
+      intros Hrp Hst HF Ha Hr.
+      replace F with (S (F - S (length rest)) + length rest)%nat by lia.
+      rewrite (go_replay c hb max inner ready grant t0 rest cl _ Hrp Hst). cbn zeta.
+      rewrite (go_not_ready _ _ _ _ _ _ Ha Hr). cbn [calls result reason ops].
+      rewrite (newest_eta _ _ Hrp). reflexivity.
+    Qed.
+  End Finish.
+
+  (* what a returned future did is exactly a run of [retry_run] *)
+  Lemma step_refines_run (c : cfg) (inps : nat -> rin) pf cp b0 evs i x w :
+    wf_bucket b0 ->
+    let s := fold_left (step_st c inps pf cp) evs (init b0) in
+    res (reqs s i) = Some (x, w) ->
+    let l := log (reqs s i) in
+    let r := retry_run c (is_some b0) (r_max (inps i)) (w_inner (inps i) l) (w_ready c (inps i) l)
+                       (w_grant l w) (w_t0 l) in
+    calls r = rev l /\ result r = x /\ reason r = w /\ ops r = ops_of i (oplog s).
+  Proof.
+    intros Hb. cbn zeta. set (s := fold_left (step_st c inps pf cp) evs (init b0)). intros Hres.
+    pose proof (GI_fold c inps pf cp b0 evs Hb) as [HR _]. fold s in HR. specialize (HR i).
+    set (rq := reqs s i) in *. set (inp := inps i) in *. set (hb := is_some b0) in *.
+    destruct HR as [Hwf Hph].
+    assert (Hdone : exists x' w', res rq = Some (x', w') /\ done_spec c inp hb rq x' w' /\
+                      ops_of i (oplog s) = gr hb (length (log rq) - 1) ++ tail_ops hb w').
+    { destruct (ph rq); try exact Hph; exfalso.
+      - destruct Hph as [_ [_ [Hr _]]]. congruence.
+      - destruct Hph as [_ [Hr _]]. congruence.
+      - destruct Hph as [Hr _]. congruence.
+      - destruct Hph as [Hr _]. congruence. }
+    destruct Hdone as [x' [w' [Hr' [Hd Hol]]]]. rewrite Hres in Hr'. injection Hr' as <- <-.
+    set (l := log rq) in *.
+    set (inner := w_inner inp l). set (ready := w_ready c inp l). set (grant := w_grant l w).
+    assert (Hrp : replays c inner ready (w_t0 l) l).
+    { apply (replays_of_wf c inp); [exact Hwf|reflexivity|]. intros k _. split; reflexivity. }
+    set (t0 := w_t0 l) in *. clearbody t0.
+    assert (Hstop : forall k, (S k < length l)%nat ->
+                      stop_at c hb (r_max inp) inner ready grant k = false).
+    { intros k Hk. destruct (wf_retried c inp l k Hwf Hk) as [e [Ho [Hs [Hlt Hnr]]]].
+      unfold stop_at. subst inner ready grant. unfold w_inner, w_ready, w_grant. cbn [fst snd].
+      rewrite Ho, Hs. cbn [negb orb].
+      replace (r_max inp <=? k + 1)%nat with false by (symmetry; apply Nat.leb_gt; lia).
+      assert (Hg : negb match w with WDenied => Nat.eqb (S k) (length l) | _ => false end = true).
+      { destruct w; try reflexivity. replace (Nat.eqb (S k) (length l)) with false; [reflexivity|].
+        symmetry. apply Nat.eqb_neq. lia. }
+      rewrite Hg. cbn [negb]. rewrite Bool.andb_false_r. cbn [orb].
+      destruct (r_ready inp (S k)); try reflexivity. contradiction. }
+    unfold retry_run. set (F := Nat.pred (Nat.max 1 (r_max inp))).
+    (* the calls before the newest one fit into the fuel *)
+    assert (HF : forall cl rest, l = cl :: rest -> (length rest <= F)%nat).
+    { intros cl rest Hl. destruct rest as [|p rest']; [cbn; lia|].
+      destruct (wf_retried c inp l (length rest') Hwf) as [e [_ [_ [Hlt _]]]];
+        [rewrite Hl; cbn [length]; lia|]. cbn [length]. subst F. lia. }
+    assert (Hfin : forall cl rest bo, l = cl :: rest ->
+              after_outcome c hb (r_max inp) (length rest) (snd (inner (length rest)))
+                            (grant (length rest)) = (bo, AReturn x w) ->
+              bo = tail_ops hb w ->
+              let r := go c hb (r_max inp) inner ready grant F 0 t0 in
+              calls r = rev l /\ result r = x /\ reason r = w /\ ops r = ops_of i (oplog s)).
+    { intros cl rest bo Hl Ha Hbo. cbn zeta. rewrite Hl in Hrp.
+      rewrite (refine_return c hb (r_max inp) inner ready grant t0 cl rest F bo x w Hrp);
+        [|intros k Hk; apply Hstop; rewrite Hl; cbn [length]; lia|apply (HF cl rest Hl)|exact Ha].
+      cbn [calls result reason ops]. rewrite Hl. repeat split; try reflexivity.
+      rewrite Hol, Hl, Hbo. cbn [length]. replace (S (length rest) - 1)%nat with (length rest) by lia.
+      reflexivity. }
+    assert (Hinner : forall k, snd (inner k) = snd (r_inner inp k)) by reflexivity.
+    destruct w; cbn [done_spec] in Hd; try contradiction.
+    - (* WOk *)
+      destruct Hd as [cl [rest [Hl [Hi [Hx [v Hv]]]]]]. fold l in Hl.
+      pose proof Hwf as Hwf'. rewrite Hl in Hwf'. cbn [wf_log] in Hwf'. destruct Hwf' as [Hci [Hco _]].
+      apply (Hfin cl rest (tail_ops hb WOk) Hl); [|reflexivity].
+      rewrite Hinner, <- Hci, <- Hco, Hv. cbn [after_outcome]. rewrite Hx, Hv. destruct hb; reflexivity.
+    - (* WRefused *)
+      destruct Hd as [cl [rest [Hl [Hi [Hx [e [Hv Hs]]]]]]]. fold l in Hl.
+      pose proof Hwf as Hwf'. rewrite Hl in Hwf'. cbn [wf_log] in Hwf'. destruct Hwf' as [Hci [Hco _]].
+      apply (Hfin cl rest (tail_ops hb WRefused) Hl); [|reflexivity].
+      rewrite Hinner, <- Hci, <- Hco, Hv. cbn [after_outcome]. rewrite Hs, Hx, Hv. cbn [negb].
+      destruct hb; reflexivity.
+    - (* WMax *)
+      destruct Hd as [cl [rest [Hl [Hi [Hx [e [Hv [Hs Hm]]]]]]]]. fold l in Hl.
+      pose proof Hwf as Hwf'. rewrite Hl in Hwf'. cbn [wf_log] in Hwf'. destruct Hwf' as [Hci [Hco _]].
+      apply (Hfin cl rest (tail_ops hb WMax) Hl); [|reflexivity].
+      rewrite Hinner, <- Hci, <- Hco, Hv. cbn [after_outcome]. rewrite Hs, Hx, Hv. cbn [negb].
+      replace (r_max inp <=? c_idx cl + 1)%nat with true by (symmetry; apply Nat.leb_le; lia).
+      destruct hb; reflexivity.
+    - (* WDenied *)
+      destruct Hd as [cl [rest [Hl [Hi [Hx [e [Hv [Hs [Hm Hhb]]]]]]]]]. fold l in Hl.
+      pose proof Hwf as Hwf'. rewrite Hl in Hwf'. cbn [wf_log] in Hwf'. destruct Hwf' as [Hci [Hco _]].
+      apply (Hfin cl rest (tail_ops hb WDenied) Hl); [|reflexivity].
+      rewrite Hinner, <- Hci, <- Hco, Hv. cbn [after_outcome]. rewrite Hs, Hx, Hv. cbn [negb].
+      replace (r_max inp <=? c_idx cl + 1)%nat with false by (symmetry; apply Nat.leb_gt; lia).
+      rewrite Hhb. subst grant. unfold w_grant. rewrite Hl, Hci. cbn [length].
+      rewrite Nat.eqb_refl. reflexivity.
+    - (* WNotReady *)
+      destruct Hd as [prev [rest [e [Hl [Hi [[e0 [Ho [Hs Hlt]]] [Hrd Hx]]]]]]]. fold l in Hl.
+      pose proof Hwf as Hwf'. rewrite Hl in Hwf'. cbn [wf_log] in Hwf'. destruct Hwf' as [Hci [Hco _]].
+      rewrite Hl in Hrp.
+      assert (Ha : after_outcome c hb (r_max inp) (length rest) (snd (inner (length rest)))
+                     (grant (length rest)) =
+                   ((if hb then [BWithdraw true] else []), ARetry (backoff c (length rest)))).
+      { rewrite Hinner, <- Hci, <- Hco, Ho. cbn [after_outcome]. rewrite Hs. cbn [negb].
+        replace (r_max inp <=? c_idx prev + 1)%nat with false by (symmetry; apply Nat.leb_gt; lia).
+        subst grant. unfold w_grant. destruct hb; reflexivity. }
+      assert (Hre : snd (ready (S (length rest))) = Some e).
+      { subst ready. unfold w_ready. cbn [snd]. rewrite <- Hci, Hi, Hrd. reflexivity. }
+      rewrite (refine_not_ready c hb (r_max inp) inner ready grant t0 prev rest F
+                 (if hb then [BWithdraw true] else []) (backoff c (length rest)) e Hrp);
+        [|intros k Hk; apply Hstop; rewrite Hl; cbn [length]; lia| |exact Ha|exact Hre].
+      + cbn [calls result reason ops]. rewrite Hl, Hx. repeat split; try reflexivity.
+        rewrite Hol, Hl. cbn [length]. replace (S (length rest) - 1)%nat with (length rest) by lia.
+        unfold tail_ops. destruct hb; reflexivity.
+      + subst F. lia.
   Qed.
 End RetryProofs.
 
 (* ---------- non-vacuity: the hypotheses and every stop reason are reachable ---------- *)
 Module Examples.
-  Definition c1 : cfg Zerr := {| pred := Some (fun e => snd e); backoff := fun k => 5 * Z.of_nat (S k) |}.
+  Definition c1 : cfg Zerr := {| pred := Some (fun e => snd e); backoff := fun k => 5 * MS * Z.of_nat (S k) |}.
   Definition fails_then_ok (n : nat) (k : nat) : Z * outcome Z Zerr :=
-    (3, if (k <? n)%nat then Fail (Z.of_nat k, true) else Ok 42).
+    (3 * MS, if (k <? n)%nat then Fail (Z.of_nat k, true) else Ok 42).
   Definition rd0 (k : nat) : Z * option Zerr := (0, None).
 
-  (* three failures, then success: 4 calls, backoffs 5, 10, 15 after latencies of 3 *)
+  (* three failures, then success: 4 calls, backoffs 5, 10, 15 ms after latencies of 3 ms *)
   Example run_ok :
-    let r := retry_run c1 true 5 (fails_then_ok 3) rd0 (fun _ => true) 100 in
-    map (fun cl => (c_start cl, c_end cl)) (calls r) = [(100, 103); (108, 111); (121, 124); (139, 142)] /\
+    let r := retry_run c1 true 5 (fails_then_ok 3) rd0 (fun _ => true) (100 * MS) in
+    map (fun cl => (c_start cl / MS, c_end cl / MS)) (calls r) = [(100, 103); (108, 111); (121, 124); (139, 142)] /\
     result r = inl 42 /\ reason r = WOk /\
     ops r = [BWithdraw true; BWithdraw true; BWithdraw true; BDeposit].
   Proof. vm_compute. repeat split; reflexivity. Qed.
+
+  (* a backoff of 1.5 ms after a failure observed at 3 ms: the retry starts at 5 ms *)
+  Example run_submilli :
+    let r := retry_run {| pred := None; backoff := fun _ => 1500000 |} false 2
+                       (fails_then_ok 1) rd0 (fun _ => true) 0 in
+    map (fun cl => (c_start cl, c_end cl)) (calls r) = [(0, 3 * MS); (5 * MS, 8 * MS)].
+  Proof. vm_compute. reflexivity. Qed.
 
   Example run_max : reason (retry_run c1 false 2 (fails_then_ok 3) rd0 (fun _ => true) 0) = WMax /\
                     length (calls (retry_run c1 false 2 (fails_then_ok 3) rd0 (fun _ => true) 0)) = 2%nat.
@@ -1196,6 +1674,10 @@ Module Examples.
     reason r = WNotReady /\ length (calls r) = 2%nat /\ result r = inr (9, true).
   Proof. vm_compute. repeat split; reflexivity. Qed.
 
+  (* the fuel and budget run_script uses satisfy the hypothesis of the progress theorem *)
+  Example script_fuel_enough : (4 * COOP + 3 < poll_fuel)%nat.
+  Proof. exact poll_fuel_enough. Qed.
+
   (* two requests on one bucket holding one token: request 0 gets it, request 1 is denied,
      and the prompt schedule of request 0 reproduces the instants of [retry_run] *)
   Definition inp (i : nat) : rin Z Zerr :=
@@ -1203,21 +1685,38 @@ Module Examples.
        r_inner := fun k => (true, if (k <? 1)%nat then Fail (Z.of_nat (10 * i + k), true) else Ok 42);
        r_ready := fun _ => ROk |}.
   Definition evs : list ev :=
-    [Poll 0; Poll 1; Advance 3; Complete 0; Poll 0; Complete 1; Poll 1;
-     Advance 5; Poll 0; Advance 3; Complete 0; Poll 0].
-  Definition sfin := fold_left (step_st c1 inp) evs (init (Some (tb_new 2 1))).
+    [Poll 0; Poll 1; Advance (3 * MS); Complete 0; Poll 0; Complete 1; Poll 1;
+     Advance (5 * MS); Poll 0; Advance (3 * MS); Complete 0; Poll 0].
+  Definition sfin := fold_left (step_st c1 inp poll_fuel COOP) evs (init (Some (tb_new 2 1))).
 
   Example shared :
-    started_calls (reqs sfin 0) = [(0, 3); (8, 11)] /\
+    started_calls (reqs sfin 0) = [(0, 3 * MS); (8 * MS, 11 * MS)] /\
     res (reqs sfin 0) = Some (inl 42, WOk) /\
     res (reqs sfin 1) = Some (inr (10, true), WDenied) /\
     oplog sfin = [(0%nat, BDeposit); (1%nat, BWithdraw false); (0%nat, BWithdraw true)] /\
     option_map tb_balance (bud sfin) = Some 1.
   Proof. vm_compute. repeat split; reflexivity. Qed.
 
-  Example shared_matches_run :
-    map (fun cl => (c_start cl, c_end cl))
-        (calls (retry_run c1 true 3 (fun k => (3, snd (r_inner (inp 0) k))) rd0 (fun _ => true) 0)) =
-    started_calls (reqs sfin 0).
-  Proof. vm_compute. reflexivity. Qed.
+  (* the refinement theorem applies to both requests (they have returned), and its witness
+     streams reproduce the log *)
+  Example shared_refines :
+    let l := log (reqs sfin 0) in
+    calls (retry_run c1 true 3 (w_inner (inp 0) l) (w_ready c1 (inp 0) l) (w_grant l WOk) (w_t0 l)) = rev l /\
+    ops_of 0 (oplog sfin) = [BWithdraw true; BDeposit] /\ ops_of 1 (oplog sfin) = [BWithdraw false].
+  Proof. vm_compute. repeat split; reflexivity. Qed.
+
+  (* the cooperative budget is reachable: 200 immediate failures with zero backoff; the first
+     poll makes 129 inner calls, then finds the budget exhausted at the 129th sleep and wakes
+     itself; the second poll finishes the remaining 71 attempts *)
+  Definition c0 : cfg Zerr := {| pred := None; backoff := fun _ => 0 |}.
+  Definition inp_fail (i : nat) : rin Z Zerr :=
+    {| r_max := 200; r_inner := fun k => (false, Fail (Z.of_nat k, true)); r_ready := fun _ => ROk |}.
+  Definition s1 := step c0 inp_fail poll_fuel COOP (init None) (Poll 0).
+  Definition s2 := step c0 inp_fail poll_fuel COOP (fst s1) (Poll 0).
+
+  Example coop_exhausted :
+    o_res (snd s1) = Pending /\ o_self (snd s1) = true /\ woken (fst s1) 0 = true /\
+    length (log (reqs (fst s1) 0)) = 129%nat /\
+    o_res (snd s2) = Ready (inr (199, true)) /\ length (log (reqs (fst s2) 0)) = 200%nat.
+  Proof. vm_compute. repeat split; reflexivity. Qed.
 End Examples.
